@@ -940,9 +940,10 @@ def _tensorclass(cls: T, *, frozen, shadow: bool) -> T:
         setattr(cls, method_name, _wrap_td_method(method_name))
     for method_name in _FALLBACK_METHOD_FROM_TD_NOWRAP:
         if not hasattr(cls, method_name) and method_name not in expected_keys:
-            is_property = isinstance(
-                getattr(TensorDictBase, method_name, None), property
-            )
+            td_attr = getattr(TensorDictBase, method_name, None)
+            # plain class attributes (e.g. ``is_meta = False``) are values, not
+            # methods: serve them as properties too
+            is_property = isinstance(td_attr, property) or not callable(td_attr)
             setattr(
                 cls,
                 method_name,
